@@ -3,6 +3,8 @@ package main
 import (
 	"fmt"
 	"sort"
+
+	"golang.org/x/tools/go/ssa"
 )
 
 func init() {
@@ -64,4 +66,55 @@ func init() {
 
 func init() {
 	register(&propDef{ID: "DUMP", Explanation: "debug: prints all obligations of a property given in $DUMP_PROP", Rules: []ruleFn{func(w *World, r *Report) {}}})
+}
+
+func init() {
+	register(&propDef{ID: "VALDEBUG", Explanation: "debug", Rules: []ruleFn{func(w *World, r *Report) {
+		v := w.Value()
+		cat := w.Catalog()
+		n := 0
+		for _, ns := range cat.Structs {
+			for i := 0; i < ns.Struct.NumFields(); i++ {
+				f := ns.Struct.Field(i)
+				if cat.nodeFieldKind(f.Type()) != "single" {
+					continue
+				}
+				a := v.FieldAV(ns.Name, f.Name())
+				if a.mayNil || a.top || a.bot {
+					n++
+					var sites []string
+					for _, al := range v.sites {
+						if v.nodeStructOf(al.Type()) == ns.Name {
+							sa, _ := v.siteField(al, f.Name(), nil)
+							if sa.mayNil || sa.top {
+								sites = append(sites, w.pos(al.Pos()))
+							}
+						}
+					}
+					fmt.Printf("MAYNIL %s.%s top=%v bot=%v %v\n", ns.Name, f.Name(), a.top, a.bot, sites)
+				}
+			}
+		}
+		fmt.Println("maynil fields:", n, "sites:", len(v.sites))
+		for _, k := range [][2]string{{"BinaryExpr", "Left"}, {"BinaryExpr", "Op"}, {"SelectorExpr", "Expr"}, {"Join", "Method"}, {"Path", "Idents"}, {"WithExpr", "Vars"}, {"CompoundQuery", "Queries"}} {
+			fmt.Printf("FIELD %s.%s = %s\n", k[0], k[1], v.FieldAV(k[0], k[1]).key())
+		}
+		r.ok("VALDEBUG", "x", "-", "dbg")
+	}}})
+}
+
+func init() {
+	register(&propDef{ID: "VALDEBUG2", Explanation: "debug", Rules: []ruleFn{func(w *World, r *Report) {
+		fn := w.fn(w.Ast, "exprPrec")
+		a := w.consumerAV(fn.Params[0], map[ssa.Value]bool{})
+		fmt.Println("exprPrec e:", a.key())
+		pf := w.fn(w.Ast, "paren")
+		a = w.consumerAV(pf.Params[1], map[ssa.Value]bool{})
+		fmt.Println("paren e:", a.key())
+		fmt.Println("callers of paren:", len(w.callersOf(pf)))
+		for _, c := range w.callersOf(pf) {
+			fmt.Println("  ", funcName(c.Parent()), c.Common().Args[1], w.consumerAV(c.Common().Args[1], map[ssa.Value]bool{}).key()[:80])
+		}
+		r.ok("VALDEBUG2", "x", "-", "dbg")
+	}}})
 }
